@@ -26,11 +26,24 @@ import (
 var shrinkBudget = 12_000_000
 
 func shrinkHistory(table []segVal, hist []int, class string) []int {
+	hangRuns := 0
 	fails := func(h []int) bool {
+		if hangRuns > 12 {
+			return false // every failing candidate of this class costs a patience window: enough
+		}
 		c, _, _, _ := judge(table, h, runCombine(table, h))
+		if c == class && strings.HasSuffix(class, "never-returns") {
+			hangRuns++
+		}
 		return c == class
 	}
 	cur := hist
+	if strings.HasSuffix(class, "never-returns") {
+		// nothing after the call that did not return matters
+		if o := runCombine(table, hist); o.Hung && o.PanicAt+1 < len(cur) {
+			cur = cur[:o.PanicAt+1]
+		}
+	}
 	for chunk := (len(cur) + 1) / 2; chunk >= 1 && shrinkBudget > 0; {
 		removed := false
 		for start := 0; start < len(cur) && shrinkBudget > 0; {
@@ -348,7 +361,7 @@ func c10RefClasses(r *Run) {
 // ---------------------------------------------------------------- two instances
 func c10TwoInstances(r *Run) {
 	sets := keySets()
-	for rep := 0; rep < r.N(40, 400); rep++ {
+	for rep := 0; rep < r.N(40, 400) && !stallsExhausted(); rep++ {
 		ks := sets["equal-ref-different-dst"]
 		if rep%2 == 1 {
 			ks = sets["ref-8bit-vs-16bit"]
@@ -387,11 +400,11 @@ func c10TwoInstances(r *Run) {
 				psA[j], psB[j] = table[hA[j]].build(), table[hB[j]].build()
 				idsA[psA[j]], idsB[psB[j]] = j+1, j+1
 				curA, curB = nil, nil
-				if pk, msg := guard(func() { addA(psA[j]) }); pk {
-					obsA.PanicAt, obsA.PanicMsg = j, msg
+				if hung, pk, msg := callWatch(func() { addA(psA[j]) }); pk || hung {
+					obsA.PanicAt, obsA.PanicMsg, obsA.Hung = j, msg, hung
 				}
-				if pk, msg := guard(func() { addB(psB[j]) }); pk {
-					obsB.PanicAt, obsB.PanicMsg = j, msg
+				if hung, pk, msg := callWatch(func() { addB(psB[j]) }); pk || hung {
+					obsB.PanicAt, obsB.PanicMsg, obsB.Hung = j, msg, hung
 				}
 				obsA.Trace, obsB.Trace = append(obsA.Trace, curA), append(obsB.Trace, curB)
 			}
